@@ -125,6 +125,10 @@ func (p *Parse) parseType() *ast.VarType {
 		p.expect(token.Shl)
 		p.next()
 		vtype.TypeK = p.parseType()
+		if vtype.TypeK.Type == token.TVector || vtype.TypeK.Type == token.TMap {
+			// Go has no map type with a slice or a map as its key
+			p.parseErr("map key cannot be a vector or a map")
+		}
 		p.expect(token.Comma)
 		p.next()
 		vtype.TypeV = p.parseType()
